@@ -354,6 +354,15 @@ func main() {
 	c.Cov("ledger_entry_transaction_pairs_not_applicable", ls.notApplicable)
 	c.Cov("ledger_mutants_accepted_applied_reverted", ls.appliedReverted)
 	c.Cov("ledger_accepted_mutant_classes", len(ls.accepted))
+	c.Cov("ledger_follow_up_blocks_on_accepted_mutants", ls.followUps)
+	if ls.followUps["spend"] == 0 || ls.followUps["contracts"] == 0 {
+		c.Infra("vacuity: follow-up histories were not exercised: %v", ls.followUps)
+	}
+	for k, n := range ls.followUps {
+		if !strings.Contains(k, "accepted") {
+			evals += n
+		}
+	}
 	c.Cov("ledger_mutants_not_executed_because_no_decoder_produces_the_value", ls.notDecodable)
 	c.Cov("ledger_mutants_skipped_after_confirmed_hang_of_their_class", ls.skippedHung)
 	c.Cov("ledger_entry_point_returned_nil", ls.perEntryOK)
